@@ -38,11 +38,12 @@ def gen_comp(rng):
             "cm": float(rng.uniform(0.7, 2)), "v": float(rng.uniform(-75, -55)), "ch": chans, "gate": float(rng.uniform(0.05, 0.6))}
 
 
-def gen_cell(rng, max_branches=5):
+def gen_cell(rng, max_branches=5, ncomp_fixed=None):
     nb = int(rng.integers(1, max_branches + 1))
     par = trees.random_parents(rng, nb)
     par, _ = trees.shuffle_topological(rng, par)
-    return {"parents": [int(p) for p in par], "branches": [[gen_comp(rng) for _ in range(int(rng.integers(1, 4)))] for _ in range(nb)]}
+    return {"parents": [int(p) for p in par],
+            "branches": [[gen_comp(rng) for _ in range(int(rng.integers(1, 4)) if ncomp_fixed is None else ncomp_fixed)] for _ in range(nb)]}
 
 
 def cases(seed, tier):
@@ -52,7 +53,23 @@ def cases(seed, tier):
         rng = trees.rng_for(seed, PID, k)
         kind = ["network", "perm_cell", "branch", "network", "cell", "perm_cell", "perm_net", "perm_cell"][k % 8]
         if kind in ("network", "perm_net"):
-            cells = [gen_cell(rng, 3) for _ in range(int(rng.integers(1, 4)))]
+            if k % 2 == 0:
+                # cells of DIFFERENT depth and shape whose branches all have the same number of compartments: the only networks the
+                # jaxley.stone / jaxley.thomas backends accept besides identical cells (they refuse unequal padded sizes per level)
+                nc = int(rng.integers(1, 4))
+                cells = [gen_cell(rng, [1, 3, 5, 6][i % 4], ncomp_fixed=nc) for i in range(int(rng.integers(2, 5)))]
+                order = rng.permutation(len(cells))
+                cells = [cells[i] for i in order]
+            elif k % 8 == 3:
+                # one or two cells of the SAME irregular morphology (different parameters): accepted by jaxley.stone / jaxley.thomas
+                cands = [gen_cell(rng, 6) for _ in range(12)]
+                # prefer a morphology in which a branch with children is shorter than the longest branch of its level (padding in the
+                # custom solvers' index arrays)
+                c0 = next((c for c in cands if trees.f1_precondition(c["parents"], [len(b) for b in c["branches"]])), cands[0])
+                cells = [c0] + [{"parents": list(c0["parents"]), "branches": [[gen_comp(rng) for _ in b] for b in c0["branches"]]}
+                                for _ in range(int(rng.integers(0, 2)))]
+            else:
+                cells = [gen_cell(rng, 3) for _ in range(int(rng.integers(1, 4)))]
         elif kind in ("cell", "perm_cell"):
             cells = [gen_cell(rng, 5)]
             if kind == "perm_cell":
@@ -64,7 +81,8 @@ def cases(seed, tier):
         else:
             cells = [{"parents": [-1], "branches": [[gen_comp(rng) for _ in range(int(rng.integers(1, 4)))]]}]
         out.append({"kind": kind, "cells": cells, "T": int(rng.integers(6, 11)), "amp": float(rng.uniform(0.02, 0.2)),
-                    "pseed": int(rng.integers(0, 2**31)), "backend": ["jax.sparse", "jaxley.stone", "jaxley.thomas"][k % 3]})
+                    "pseed": int(rng.integers(0, 2**31)),
+                    "backend": ["jax.sparse", "jaxley.stone", "jaxley.thomas"][k % 3] if not (kind in ("network", "perm_net") and (k % 2 == 0 or k % 8 == 3)) else ["jaxley.stone", "jaxley.thomas"][(k // 2) % 2]})
     return out
 
 
@@ -182,7 +200,8 @@ def run_case(case, rec):
     chans = "+".join(sorted({q["name"] for c in flat_comps(cells) for q in c["ch"]}))
     tag = dict(kind=kind, parents=[c["parents"] for c in cells], ncomp=[[len(b) for b in c["branches"]] for c in cells], channels=chans)
     hetero_net = len(cells) > 1 and any([len(b) for b in c["branches"]] != [len(b) for b in cells[0]["branches"]] or c["parents"] != cells[0]["parents"] for c in cells)
-    backend = "jax.sparse" if hetero_net else case["backend"]
+    uniform_nc = len({len(b) for c in cells for b in c["branches"]}) == 1
+    backend = "jax.sparse" if (hetero_net and not uniform_nc) else case["backend"]
     tol = 1e-9
 
     if kind == "branch":
